@@ -94,6 +94,8 @@ impl TypeSpace {
                             .into_iter()
                             .map(|type_id| {
                                 let box_id = self.id_to_box(&type_id);
+                                #[cfg(typify_verif)]
+                                crate::verif::event("box", || serde_json::json!(type_id.0));
 
                                 (type_id, box_id)
                             })
